@@ -4,6 +4,18 @@ properties.jsonl (everything else goes to not_applicable with its reason)."""
 import json, subprocess
 
 CLAIMS = {
+ 'C01': dict(
+   text="Lean 4 theorems over the Prove layer (model of SendLastStateProofProcess::execute, check_if_response_is_matched, check_continuous_headers, commit_prove_state and the peer state machine, with PoW / chain-root commitment / MMR verdicts as inputs): the trusted state (every peer's proved state, stored tip, difficulty, last-N) changes on a SendLastStateProof only if it answers the outstanding request and every returned header is PoW-valid and commits to its chain root, the MMR proof verifies, the reorg / sampled / last-N sections have the requested shape and the checked sections are parent-linked - or the peer merely receives a copy of another peer's proved state (C01.only_verified); accepted shapes are characterised (shape_sound), every sampled header answers a requested difficulty and no requested sample is skipped (samples_sound), a banned response changes nothing trusted (reject_unchanged), an unsolicited one nothing at all (unsolicited_noop). Tied to /repo by event histories against the real LightClientProtocol on simchain chains with an RFC-44 honest server: honest answers to the client's own sampled requests and 14 single-fault edits (incl. re-selected genuine headers with honest MMR proofs), full trusted-state dump compared with the model after every event.",
+   note="Trusted: Lean kernel; standard axioms; harness (simchain generator, honest server re-implementation, header->token abstraction, edit generator). Assumptions (inputs of the model): PoW verdict, patched_is_valid verdict, MerkleProof::verify verdict (MmrSound); hashes are ids (collision-free). Hypothesis of only_verified: peer ids in the state are distinct (invariant lemmas onProof_nodup etc.).",
+   technique="Lean 4 proof (inversion of the handler, loop specs) + handler-level differential correspondence with edited honest responses", ref="5 C01"),
+ 'C11': dict(
+   text="Lean 4 theorems over the Prove layer: every handler (SendLastState, SendLastStateProof, refresh tick) moves each peer only along paths of documented diagram edges (plus the copy shortcut), other peers do not move (C11.diagram_*); the proved state changes on a proof message only with an outstanding request for that last state or as a copy (proof_needs_request); a last-state update never discards a proof (last_state_keeps_proof); the tick disconnects exactly the peers with an over-age request or last state (timeout_exact); a disconnected peer leaves no state (disconnect_clean); connect starts in RequestFirstLastState (connect_starts) - for any number of peers and any message contents/verdicts. Tied to /repo by the same event histories as C01 with ticks at the timeout boundaries, state kinds compared after every event.",
+   note="Trusted: as C01. Request slots of blocks/transactions proofs and their timeouts belong to C16. Hypothesis of proof_needs_request: distinct peer ids (witness_duplicate_ids shows why).",
+   technique="Lean 4 proof (case analysis over the state machine, loop invariant for the tick) + handler-level differential correspondence", ref="5 C11"),
+ 'C12': dict(
+   text="Lean 4 theorems over the Prove layer: the stored tip changes only to a strictly greater total difficulty, only to the announced/requested header which becomes the sender's proved header, the stored difficulty is the one committed by that header and - on the child fast path - its parent chain root is the proved parent's (same total difficulty, end number, parent link) (C12.last_state_store, proof_store); no other event writes the tip (other_events_keep_store); along every history the stored difficulty never decreases and the tip is unchanged unless it strictly increased (monotone_history); restart reads exactly the stored triple (restart_reproduces); witness for the forged-child defect fixed in send_last_state.rs. Tied to /repo by the C01 event histories plus forged-child announcements, with oracles on the stored tip.",
+   note="Trusted: as C01. The ancestry of the remembered last-N headers is proved only as far as the handlers check it (parent links inside the new section); restart is modelled as reading the three stored values (RocksDB durability assumed).",
+   technique="Lean 4 proof + handler-level differential correspondence", ref="5 C12"),
  'C07': dict(
    text="Lean 4 theorems over the Quorum layer (model of CheckPoints::add_check_points and LightClientProtocol::finalize_check_points): final check points are never rewritten and the final index never decreases, along every event history (C07.immutable, immutable_history); every newly final index is backed by a quorum (ceil(max_outbound/2)) of distinct proven peers reporting the stored values since the previous final one (C07.quorum); a proven peer contradicting the final value is banned and nobody else (C07.contradiction_banned); fewer deviating peers than the quorum can neither finalize another value nor block agreement (C07.minority_harmless); accepted batches are aligned, contiguous, anchored (C07.add_checked) — for any number of peers, vector lengths and tie-breaks. Tied to /repo by operation-sequence correspondence on the real Peers/LightClientProtocol objects (1..6 peers, max_outbound 1..8, honest/deviating vectors, reconnects) with full state dumps after every finalize and an independent quorum/immutability/ban oracle.",
    note="Trusted: Lean kernel; standard axioms; harness (op generator, hash<->id abstraction, oracle). HashMap iteration order of the implementation enters the model as the universally quantified `choices`. Storage is modelled as the list of final check points (RocksDB assumed to store what is put).",
